@@ -511,7 +511,7 @@ func main() {
 	run.Assume("created_at / updated_at / the time stored in deleted_at are masked (the property sets tracked timestamps aside); deleted_at is observed as NULL / NOT NULL")
 	run.Assume("RowsAffected is compared except for a batch Create with OnConflict{DoNothing} and caller-supplied keys (ambiguous); the in-memory elements of a batch Create whose OnConflict.Where skipped rows are not compared (table and RowsAffected are); FirstOrCreate with a key taken from the conditions that collides with a soft-deleted row is expected to fail and leave the table unchanged")
 	run.Assume("single-fault variants: a fault is an injected error on one statement (exec/query) of the operation, executed for unwrapped operations on the states that also get the Session/WithContext chains; begin/commit faults are left to C04/C05")
-	run.Assume("outside the alphabet: OnConflict with an empty DoUpdates, OnConstraint, Where on DoNothing (not valid SQL), Attrs overlapping the condition columns, all-zero struct in Assign, hooks, associations, Select/Omit")
+	run.Assume("outside the alphabet: pointer to map in Where/Attrs/Assign (not accepted by gorm: assignInterfacesToValue and BuildCondition only know map values and treat *map as a primary-key value); OnConflict with an empty DoUpdates, OnConstraint, Where on DoNothing (not valid SQL), Attrs overlapping the condition columns, all-zero struct in Assign, hooks, associations, Select/Omit")
 	run.Assume("the re-seeded state equals the state reached by the real history up to the masked timestamps; checked once per expanded state by replaying the history on the implementation")
 	run.Finish(map[string]interface{}{
 		"states":                                  totalStates,
@@ -521,7 +521,7 @@ func main() {
 		"evaluations":                             st.executions,
 		"distinct_nontrivial":                     st.nontrivial,
 		"distinct_outcomes":                       outcomes.Len(),
-		"rule":                                    fmt.Sprintf("BFS from the empty table over all operation sequences of length <= %d, per model (plain, soft-delete twin); a state is the table dump in key order with timestamps masked; every operation of the alphabet (Save x2 of keys 0..3, Create+OnConflict{DoNothing,UpdateAll,DoUpdates over every non-empty subset of name/age/email, constant assignment, UpdateAll and DoUpdates with a Where on excluded vs stored age} on keys 1..3 and two-row batches, soft delete, FirstOrInit/FirstOrCreate with 6 conditions x struct/map x Where/inline, Attrs and Assign in struct/map/key-value form, Session(&Session{}) or WithContext at every position of the chain) is executed on the implementation from every state of depth < %d (plus, for the states that also get the Session/WithContext chains, every unwrapped operation once more per statement it sends with that statement failing in the driver: error required, table unchanged) and compared with the reference map (returned record, RowsAffected, table, driver log); non-trivial = distinct (state, operation) whose step met existing data (key collision, match, invisible soft-deleted match) or built a record from conditions/Attrs/Assign", maxDepth, maxDepth),
+		"rule":                                    fmt.Sprintf("BFS from the empty table over all operation sequences of length <= %d, per model (plain, soft-delete twin); a state is the table dump in key order with timestamps masked; every operation of the alphabet (Save x2 of keys 0..3, Create+OnConflict{DoNothing,UpdateAll,DoUpdates over every non-empty subset of name/age/email, constant assignment, UpdateAll and DoUpdates with a Where on excluded vs stored age} on keys 1..3 and two-row batches, soft delete, FirstOrInit/FirstOrCreate with 6 conditions x struct/map x Where/inline, conditions, Attrs and Assign also as pointer to struct, Attrs and Assign in struct/map/key-value form, Session(&Session{}) or WithContext at every position of the chain) is executed on the implementation from every state of depth < %d (plus, for the states that also get the Session/WithContext chains, every unwrapped operation once more per statement it sends with that statement failing in the driver: error required, table unchanged) and compared with the reference map (returned record, RowsAffected, table, driver log); non-trivial = distinct (state, operation) whose step met existing data (key collision, match, invisible soft-deleted match) or built a record from conditions/Attrs/Assign", maxDepth, maxDepth),
 		"samples":                                 samples.List(),
 		"exhaustive":                              exhaustive,
 		"max_sequence_length":                     maxDepth,
